@@ -2,9 +2,10 @@ CONSTANTS
   FromCheck = TRUE
   CurrentCheck = TRUE
   OriginDecrement = TRUE
+  OriginTotal = TRUE
   DenomCheck = TRUE
   MaxTx = 1
   MaxOps = 3
 INIT Init
 NEXT Next
-INVARIANTS InvDecrease InvDenom InvCapsNeedGrant InvOriginSpent
+INVARIANTS InvDecrease InvDenom InvCapsNeedGrant InvOriginNet
